@@ -90,6 +90,7 @@ def check(tier, seed, replay=None):
                        "operator chaining; 1-5 nodes; hierarchy depth 0-2; edges at every level incl. parallel edges, several variables of one node into one target, self loops; "
                        "hostile names x_v1, weight, r_in0, in_edge_0, source, index ...; shuffled declaration order; equation strings rendered in random styles) compiled with "
                        "get_run_func(vectorize=False, float64); observables: state layout, argument values, initial state, dy at 3 exact points incl. one with varied parameters. "
+                       "V stream: run(vectorize=True) trajectories of C04's model strata (groups, all-to-all, permutations, twin operators, edge templates, bound edge inputs) == Lean trajectory. "
                        "distinct = distinct (model, points); non-trivial = at least one edge or in-node feeder")
     rep.assumptions += ["exact sample space: dyadic values, polynomial equations of degree <= 3, stand-in integer polynomials for sympy-unknown functions; cases needing > 46 bits are not generated",
                         "models with cyclic algebraic dependencies are not generated (outside well-formed models)"]
@@ -123,6 +124,31 @@ def check(tier, seed, replay=None):
             rep.validated()
         else:
             spec_bad.append((case, im, dev))
+    # V stream: the default compilation mode is vectorize=True - the same specification must be met by the vectorized network.  Models and comparison are
+    # those of C04 (all strata); regions of C04's known findings are reported as such, not as new violations.
+    vbad = []
+    if not replay:
+        from . import c04
+        vcases = [c04.gen_case(rng, tier) for _ in range(45 if tier == "quick" else 600)]
+        for vc in vcases:
+            vc["run"]["vectorize"] = True
+        vorcs = [N.oracle_traj(vc) for vc in vcases]
+        vimpl = C.run_forked(N.impl_run, vcases, timeout=240)
+        kf_on = any(f.get("id") == "C01-inherits-C04-regions" and f.get("status") == "known" for f in C.load_known_findings())
+        for vc, vi, vo in zip(vcases, vimpl, vorcs):
+            if "crash" in vi:
+                raise C.HarnessError("harness child crashed (V stream): " + str(vi)[:600])
+            rep.count("V-vectorized-run-" + vc.get("stratum", "random"), json.dumps(vc, sort_keys=True), nontrivial=True)
+            mr = drv.ask(N.model_traj_request(vc, vo["flat"]))
+            if mr.get("rows") != vo["rows"]:
+                raise C.HarnessError("Lean model and Python oracle disagree on a trajectory: " + json.dumps(vc)[:400])
+            vdev = c04.deviations(vc, vi, vo)
+            if not vdev:
+                rep.validated()
+            elif kf_on and any(pred(vc, "vec", vi, vdev) for pred, _ in c04.KNOWN.values()):
+                rep.known_finding("C01-inherits-C04-regions: vectorize=True inside a region of a C04 known finding (stale algebraic value across merged groups / dot-edge ValueError)")
+            else:
+                vbad.append((vc, vi, vdev))
     drv.close()
     rep.cov["strata"].update({"feature:" + k: v for k, v in feats.items()})
     rep.sample({"mdl": cases[-1]["mdl"], "points": cases[-1]["points"][:1], "impl_dy": impl[-1].get("dy", [None])[:1]})
@@ -132,7 +158,10 @@ def check(tier, seed, replay=None):
         case, im, dev = min(spec_bad, key=lambda x: len(json.dumps(x[0]["mdl"])))
         rep.violation(f"generated vector field / layout / arguments deviate from the model's equations: {dev[0][0]}",
                       {"case": case, "impl": im, "deviations": dev[:5], "expected_dy": N.oracle_case(case)["dy"]})
-    elif not proof_ok:
+    if vbad:
+        vc, vi, vdev = min(vbad, key=lambda x: len(json.dumps(x[0]["mdl"])))
+        rep.violation(f"vectorize=True: the compiled network does not follow the model's equations ({vdev[0][0]})", {"case": vc, "impl": vi, "deviations": vdev[:4]})
+    if not spec_bad and not vbad and not proof_ok:
         why = {"proof_ok": proof_ok, "build_log_tail": detail["build_log_tail"], "forbidden": detail["forbidden"],
                "audit_failures": (detail["audit"] or {}).get("failures"), "broken": "theorems of PyRatesModel.Props.C01 (build/audit)"}
         rep.violation("C01 is no longer shown to hold: " + why["broken"], why, no_input=True, name="unproved")
